@@ -13,7 +13,16 @@
     allocation-aware reader returns exactly what `Edn.Model.read` returns (refinement: every
     theorem about `read` is a theorem about the fault-free runs of `readA`);
   * `error_without_fault_is_the_readers_error` — an error returned although no request failed is
-    the fault-free error.
+    the fault-free error;
+  * `fault_yields_error_or_the_complete_value` — under EVERY oracle (every single failure, every
+    from-k-on failure, every other schedule) the outcome is the complete fault-free value (equal up
+    to cache cells, same call log), or the end-of-input value where the fault-free read yields it,
+    or an error: a fault can turn the outcome into an error, never into a different or partial
+    value (for registries of handlers that do not look at cache cells, in particular without a
+    registry; see the theorem for why, and for the two counterexamples that led to the repair of
+    the code);
+  * `accessor_yields_payload_or_null` — an accessor call that materialises a string or the digits
+    of a big number after the read returns the complete payload or NULL under every oracle.
   That the code returns normally, leaks nothing and touches no dead memory under every single and
   every from-k-on failure is, beyond the correspondence with the model, decided at run time by the
   fault enumeration of the check (monitoring).
@@ -21,6 +30,8 @@
 import Edn.Proofs.Faults
 import Edn.Proofs.Arena
 import Edn.Proofs.AllocSim
+import Edn.Proofs.AllocSimFault
+import Edn.Proofs.AllocSimMat
 
 namespace Edn.Properties.C16
 open Edn.Model Edn.Spec Edn.Proofs
@@ -114,5 +125,100 @@ example : Outcome.errCode (readA Cfg.core {} (fun i => i == 5) "[1 2 {:a \"x\"} 
 -- … and with request 5 and every later one failing
 example : Outcome.errCode (readA Cfg.core {} (fun i => decide (5 ≤ i)) "[1 2 {:a \"x\"} #{1 2 3}]".toUTF8.toList).out
     = some 4 := by decide +kernel
+
+/-- **A fault yields an error or the complete value.**  For every fault oracle `orc` — every
+    single failing request, every failure from some request on, every other schedule —, every
+    growth rule, handler-request table and `qsort` contact order, and every registry of handlers
+    that do not look at cache cells (`RegistryOK`, see below; true when there is no registry):
+
+    * if the read under faults returns a value `v`, the fault-free read returns a value `v0` with
+      `eraseCache v = eraseCache v0` (the same tree: kinds, payloads, source ranges, element order,
+      metadata; only cache cells of the hash may be empty in `v` where `v0` has them filled,
+      because the duplicate check falls back to a strategy without hashing when its scratch memory
+      is refused), and the call logs are equal;
+    * if it returns the caller's end-of-input value, so does the fault-free read;
+    * otherwise it returns an error; it never runs out of the model's recursion fuel.
+
+    `RegistryOK cfg opts`: every handler, given arguments that differ in cache cells only, gives up
+    on both or returns results that differ in cache cells only and are well-formed values with
+    valid caches (`Edn.Proofs.AllocSim.HandlerOK`).  Needed because a handler of the model is an
+    arbitrary function of the value incl. its cache cells
+    (`Edn.Proofs.AllocSim.fault_theorem_needs_registry_hypothesis`: a handler that peeks at a cache
+    cell turns a refused scratch `malloc` into a different value); the identity handler, the
+    always-failing handler and a handler building an external value satisfy it.
+
+    The statement was false for the code as it was when the model was first matched against it
+    (model and code agreed): a refused lazy decoding inside `edn_value_equal` was treated like an
+    undecodable literal.  Counterexamples, both confirmed on the code with the `H` command:
+    core configuration, `#{"a\n" "a<LF>"}` with request 6 alone failing returned a set with two
+    equal elements (fault-free: DUPLICATE_ELEMENT); Clojure configuration,
+    `^{"a\n" 1} ^{"a<LF>" 2} x` with request 17 and every later one failing returned `x` with a
+    metadata map with two equal keys (fault-free: one entry).  The code was repaired (the arena
+    counts refused requests; the set / map close and the metadata merge report OUT_OF_MEMORY when
+    the count moved during the comparison; big-number equality is false on NULL digits), the model
+    follows the repaired code, and the theorem holds for it. -/
+theorem fault_yields_error_or_the_complete_value (cfg : Cfg) (opts : Opts)
+    (hR : Edn.Proofs.AllocSim.RegistryOK cfg opts)
+    (orc : Nat → Bool) (input : Bytes) (grow : Nat → Nat) (handlerReq : String → Bool) (sortTouch : Nat → List Nat) :
+    (match (readA cfg opts orc input grow handlerReq sortTouch).out with
+     | .value v => ∃ v0, (Edn.Model.read cfg opts input).out = .value v0 ∧ eraseCache v = eraseCache v0
+     | .eofValue => (Edn.Model.read cfg opts input).out = .eofValue
+     | .error _ _ _ => True
+     | .fuelOut => False) ∧
+    (∀ v, (readA cfg opts orc input grow handlerReq sortTouch).out = .value v →
+      (readA cfg opts orc input grow handlerReq sortTouch).calls = (Edn.Model.read cfg opts input).calls) :=
+  Edn.Proofs.AllocSim.readA_fault cfg opts hR orc input grow handlerReq sortTouch
+
+/-- the fault theorem without a handler registry (no hypothesis left) -/
+theorem fault_yields_error_or_the_complete_value_noRegistry (cfg : Cfg) (opts : Opts) (hreg : opts.registry = none)
+    (orc : Nat → Bool) (input : Bytes) (grow : Nat → Nat) (handlerReq : String → Bool) (sortTouch : Nat → List Nat) :
+    (match (readA cfg opts orc input grow handlerReq sortTouch).out with
+     | .value v => ∃ v0, (Edn.Model.read cfg opts input).out = .value v0 ∧ eraseCache v = eraseCache v0
+     | .eofValue => (Edn.Model.read cfg opts input).out = .eofValue
+     | .error _ _ _ => True
+     | .fuelOut => False) :=
+  (Edn.Proofs.AllocSim.readA_fault cfg opts (Edn.Proofs.AllocSim.RegistryOK_of_none hreg) orc input grow handlerReq sortTouch).1
+
+/-- the same inside the recursion (`edn_read_value` at a nesting depth within the limit) -/
+theorem readValue_under_faults (x : ACtx) (hR : Edn.Proofs.AllocSim.RegistryOK x.ctx.cfg x.ctx.opts) (f d : Nat) (dm : Bool) (st : St) (a : ASt)
+    (hd : d ≤ Edn.Generated.Tables.maxNestingDepth) (v : Val) (st' : St)
+    (h : (readValueA x f d dm st a).1 = .ok v st') :
+    ∃ v0, readValue x.ctx f d dm st = .ok v0 st' ∧ eraseCache v = eraseCache v0 :=
+  (Edn.Proofs.AllocSim.readValueA_fault x hR f d dm st a hd).1 v st' h
+
+/-- the repaired behaviour on the first counterexample: with request 6 (the decoded text of the
+    escaped string, inside the duplicate check) failing alone the read reports OUT_OF_MEMORY … -/
+example : Outcome.errCode (readA Cfg.core {} (fun i => i == 6) "#{\"a\\n\" \"a\n\"}".toUTF8.toList).out = some 4 := by
+  decide +kernel
+/-- … and DUPLICATE_ELEMENT (12) without a fault -/
+example : Outcome.errCode (readA Cfg.core {} (fun _ => false) "#{\"a\\n\" \"a\n\"}".toUTF8.toList).out = some 12 := by
+  decide +kernel
+/-- the hypothesis of the fault theorem holds for the default options … -/
+example : Edn.Proofs.AllocSim.RegistryOK Cfg.core {} := Edn.Proofs.AllocSim.RegistryOK_of_none rfl
+/-- … and for a registry that maps every tag to the identity handler -/
+example (cfg : Cfg) : Edn.Proofs.AllocSim.RegistryOK cfg { registry := some (fun _ => some ⟨"id", fun v => some v⟩) } := by
+  intro reg e tag h hh
+  simp only [Option.some.injEq] at e
+  subst e
+  simp only [Option.some.injEq] at hh
+  subst hh
+  exact Edn.Proofs.AllocSim.HandlerOK_id cfg "id"
+/-- a failing scratch allocation (request 22: the `malloc` of the sorted copy) degrades the duplicate
+    check of a 17-element set to the pairwise strategy without changing the outcome: still a
+    value (whose elements have empty cache cells) -/
+example : Outcome.isValue (readA Cfg.core {} (fun i => i == 22)
+    "#{1 2 3 4 5 6 7 8 9 10 11 12 13 14 15 16 17}".toUTF8.toList).out = true := by decide +kernel
+
+/-- **Lazily materialised payloads.**  `edn_string_get`, `edn_bigint_get`, `edn_bigdec_get` called
+    on a value of the tree after the read, under every oracle and in every allocation state:
+    the complete payload (`materialise`: decoded text, digits without separators) or NULL — never a
+    part of it; with no failing request and the arena alive, the payload. -/
+theorem accessor_yields_payload_or_null (x : ACtx) (v : Val) (a : ASt) :
+    (materialiseA x v a).1 = Edn.Proofs.AllocSim.materialise x.ctx.cfg v ∨ (materialiseA x v a).1 = none :=
+  Edn.Proofs.AllocSim.materialiseA_fault x v a
+
+theorem accessor_without_faults (x : ACtx) (hx : ∀ n, x.orc n = false) (v : Val) (a : ASt) (ha : a.arena = .alive) :
+    (materialiseA x v a).1 = Edn.Proofs.AllocSim.materialise x.ctx.cfg v :=
+  Edn.Proofs.AllocSim.materialiseA_nofault x hx v a ha
 
 end Edn.Properties.C16
